@@ -213,6 +213,7 @@ theorem aw_deserType (hA : 1 ≤ A) : ∀ fuel, AllocW 2 A B (deserType fuel)
       · aw0
       · rename_i site he
         exact absurd he (hnp site)
+      · aw0
     · aw0
     · aw0
     · aw0
